@@ -182,6 +182,8 @@ def main(argv):
             res["enumerated_range"] = [lo, hi, total]
         else:
             n = sub.n[tier]
+            if tier == "thorough":  # per-property depth factor, set from the measured cost of one thorough run
+                n = int(n * float(os.environ.get("VF_THOROUGH_SCALE") or getattr(mod, "THOROUGH_SCALE", 1)))
             hseed = _hyp_seed(seed, subname, k, sub.sweep)
             run_strategy(col, sub, tier, hseed, n)
             # shrink what is not covered by a known finding (at most 3 buckets per shard)
